@@ -72,6 +72,8 @@ pub struct Gen<'a> {
     counters: Vec<String>,
     /// statements that must precede the statement being generated, in the same statement list
     pending: Vec<S>,
+    /// the expression being generated may have a static type that mentions `!`
+    never_ok: bool,
 }
 
 fn scalar_kind(t: &Ty) -> Option<char> {
@@ -96,7 +98,7 @@ pub fn iter_elem(t: &Ty) -> Option<Ty> {
 
 impl<'a> Gen<'a> {
     pub fn new(rng: &'a mut Rng, p: Profile) -> Self {
-        Gen { rng, p, scopes: vec![Vec::new()], next_tick: 1, in_loop: 0, fn_ret: Vec::new(), shapes: BTreeSet::new(), budget: 400, defining: Vec::new(), counters: Vec::new(), pending: Vec::new() }
+        Gen { rng, p, scopes: vec![Vec::new()], next_tick: 1, in_loop: 0, fn_ret: Vec::new(), shapes: BTreeSet::new(), budget: 400, defining: Vec::new(), counters: Vec::new(), pending: Vec::new(), never_ok: false }
     }
 
     fn tag(&mut self, s: &str) {
@@ -137,10 +139,12 @@ impl<'a> Gen<'a> {
         out
     }
     fn vars_sub(&self, goal: &Ty) -> Vec<(String, Ty)> {
-        self.visible().into_iter().filter(|(_, t)| sub(t, goal) && *t != Ty::Never).collect()
+        // a variable whose type mentions `!` (an element of `[]`, the payload of `[]~`) fits every goal, but what is taken
+        // out of it is `!` again, not the goal type: such variables are only used where they are asked for by name
+        self.visible().into_iter().filter(|(_, t)| sub(t, goal) && !t.contains_never()).collect()
     }
     fn vars_where(&self, f: impl Fn(&Ty) -> bool) -> Vec<(String, Ty)> {
-        self.visible().into_iter().filter(|(_, t)| f(t)).collect()
+        self.visible().into_iter().filter(|(_, t)| f(t) && !t.contains_never()).collect()
     }
     fn name(&mut self) -> String {
         (*self.rng.pick(self.p.names)).to_string()
@@ -241,9 +245,34 @@ impl<'a> Gen<'a> {
     /// an expression whose static type is a subtype of `goal`; returns the type the checker computes
     pub fn expr(&mut self, goal: &Ty, depth: u32) -> (E, Ty) {
         self.budget -= 1;
+        // an expression whose static type mentions `!` (`[]~ $+`, `[][k]`, an element of `[]`) fits every goal, but the
+        // type of what is built *around* it follows rules of its own (`! * int` is `!`, `int * !` is int, an index of
+        // type `!` is refused): it is generated only where a binding or an expression statement takes it as it is
+        let top = std::mem::replace(&mut self.never_ok, false);
         let (e, t) = self.expr_inner(goal, if self.budget < 0 { 0 } else { depth });
+        self.never_ok = top;
+        if t.contains_never() && !top {
+            if let Some(lit) = Self::plain_literal(goal) {
+                return (lit, goal.clone());
+            }
+        }
         let e = self.maybe_tick(e, &t);
         (e, t)
+    }
+
+    fn plain_literal(goal: &Ty) -> Option<E> {
+        Some(match goal {
+            Ty::Int => E::Int(2),
+            Ty::Str => E::Str("a".into()),
+            Ty::Float => E::Float(1.5),
+            Ty::Bool => E::Bool(true),
+            Ty::Void => E::Void,
+            Ty::Arr(e) => E::Arr(vec![Self::plain_literal(e)?]),
+            Ty::Tup(ts) => E::Tup(ts.iter().map(Self::plain_literal).collect::<Option<Vec<_>>>()?),
+            Ty::Union(ms) => Self::plain_literal(ms.iter().next()?)?,
+            Ty::Any => E::Int(2),
+            _ => return None,
+        })
     }
 
     fn var_of(&mut self, goal: &Ty) -> Option<(E, Ty)> {
@@ -411,14 +440,17 @@ impl<'a> Gen<'a> {
             }
             3 => {
                 // index into an int array
-                let (mut a, _) = self.expr(&Ty::arr(Ty::Int), d);
-                if a == E::Arr(vec![]) && !self.pct(self.p.err) {
-                    // indexing an empty literal has static type `!`; keep that rare
+                let (mut a, mut at) = self.expr(&Ty::arr(Ty::Int), d);
+                if (a == E::Arr(vec![]) || at.contains_never()) && !self.pct(self.p.err) {
+                    // indexing an empty array has static type `!`; keep that rare
                     a = E::Arr(vec![E::Int(self.small_int())]);
+                    at = Ty::arr(Ty::Int);
                 }
                 let idx = self.index_expr(d);
                 self.tag("expr:index-array");
-                (E::Index(Box::new(a), Box::new(idx)), Ty::Int)
+                // the element type the checker computes (`!` for `[][k]`)
+                let et = if a == E::Arr(vec![]) || at.contains_never() { Ty::Never } else { Ty::Int };
+                (E::Index(Box::new(a), Box::new(idx)), et)
             }
             4 => {
                 let (a, t) = self.expr(&Ty::union([Ty::arr(Ty::Any), Ty::Str]), d);
@@ -573,7 +605,11 @@ impl<'a> Gen<'a> {
 
     fn index_expr(&mut self, d: u32) -> E {
         if self.pct(self.p.err) {
-            self.expr(&Ty::Int, d).0
+            // (an index / bound whose static type is `!` is refused by the checker: "Index must be int")
+            match self.expr(&Ty::Int, d) {
+                (e, Ty::Int) => e,
+                _ => E::Int(0),
+            }
         } else {
             E::Int(*self.rng.pick(&[0i64, 0, -1, 1]))
         }
@@ -658,7 +694,10 @@ impl<'a> Gen<'a> {
             match g.rng.below(4) {
                 0 | 1 => None,
                 2 => Some(Box::new(E::Int(g.rng.range(-3, 3)))),
-                _ => Some(Box::new(g.expr(&Ty::Int, d.min(1)).0)),
+                _ => Some(Box::new(match g.expr(&Ty::Int, d.min(1)) {
+                    (e, Ty::Int) => e,
+                    _ => E::Int(1),
+                })),
             }
         };
         (b(self), b(self), b(self))
@@ -1013,7 +1052,9 @@ impl<'a> Gen<'a> {
         }
         let t = self.decl_type();
         let n = self.name();
+        self.never_ok = true;
         let (e, et) = self.expr(&t, depth);
+        self.never_ok = false;
         self.declare(&n, et);
         S::Let(n, Box::new(S::Expr(e)))
     }
@@ -1454,7 +1495,8 @@ impl<'a> Gen<'a> {
         let mut body = Vec::new();
         // optional bounded recursion through the first int parameter
         let rec_param = params.iter().find(|(_, t)| *t == Ty::Int).map(|(n, _)| n.clone());
-        let recursive = rec_param.is_some() && ret == Ty::Int && self.pct(30);
+        // no recursion through a name that a parameter shadows (`res := (res: int) -> int {..}`: `res` is the parameter)
+        let recursive = rec_param.is_some() && ret == Ty::Int && !params.iter().any(|(n, _)| *n == fname) && self.pct(30);
         if recursive {
             let (base, _) = self.expr(&Ty::Int, 1);
             body.push(S::If(
@@ -1474,7 +1516,13 @@ impl<'a> Gen<'a> {
             body.push(S::If(c, Box::new(S::Block(vec![S::Return(Some(Box::new(S::Expr(e))))])), None));
             self.tag("ctrl:early-return");
         }
-        if recursive {
+        // body statements may have re-declared the function's name or the counting parameter
+        let lookup = |g: &Self, n: &str| g.visible().into_iter().find(|(m, _)| m == n).map(|(_, t)| t);
+        let still_recursive = recursive && lookup(self, &fname) == Some(fty.clone()) && rec_param.as_ref().is_some_and(|p| lookup(self, p) == Some(Ty::Int));
+        if recursive && !still_recursive {
+            let (e, _) = self.expr(&Ty::Int, 1);
+            body.push(S::Return(Some(Box::new(S::Expr(e)))));
+        } else if recursive {
             let p = rec_param.unwrap();
             let args: Vec<E> = params
                 .iter()
